@@ -21,7 +21,7 @@ import traceback
 from fractions import Fraction
 
 VERIF = os.path.dirname(os.path.dirname(os.path.abspath(__file__)))
-EVID = os.path.join(VERIF, "evidence")
+EVID = os.environ.get("VERIF_EVIDENCE") or os.path.join(VERIF, "evidence")   # redirected for scratch-tree trials
 REPLAYS = os.path.join(EVID, "replays")
 
 
@@ -445,6 +445,11 @@ def finish(pid, prop, tier, seed, results, wall, partial=False):
                 problems.append("%s: trace validation mismatch %s" % (r["name"], json.dumps(mm)[:400]))
         # ---- counterexamples -> replay on the real code
         bytag = {}
+        harness_err = [c for c in r["cex"] if c["tag"].startswith("exception:") and c["tag"].endswith("@")]
+        if harness_err:
+            # an exception with no frame in the code under test is a bug of the harness itself
+            problems.append("%s: harness error %s %s" % (r["name"], harness_err[0]["tag"], harness_err[0].get("message")))
+            r["cex"] = [c for c in r["cex"] if c not in harness_err]
         for c in r["cex"]:
             if c.get("known"):
                 kf = [k for k in known if k["id"] == c["known"]]
